@@ -128,6 +128,10 @@ func e2eInstallPoint(pt *e2ePoint, run int, tr *vTrace, w *e2eWire, client func(
 				}()
 			}
 		}
+		if pt.HoldMs > 0 {
+			sleepOr(pt.HoldMs)
+			return
+		}
 		// the time the harness itself kept the goroutine is not time the code took to react
 		if sleepOr(pt.ReleaseMs) && pt.Kind != "none" && pt.Kind != "pause" {
 			*stopAt = time.Now()
